@@ -195,8 +195,48 @@ impl Sub for Product {
     }
 }
 
+/// The same low-degree real polynomials, zero-padded, in several lengths one after the other.
+#[derive(Clone, Debug, Serialize, Deserialize)]
+pub struct SeqCase {
+    a_low: Vec<i64>,
+    b_low: Vec<i64>,
+    dims: Vec<u32>,
+}
+
+pub struct Sequence;
+
+impl Sub for Sequence {
+    type Case = SeqCase;
+    fn name(&self) -> &'static str {
+        "fft_same_operands_sequence"
+    }
+    fn strategy(&self, _env: &Env) -> BoxedStrategy<SeqCase> {
+        (proptest::collection::vec(-16384i64..=16384, 1..=8), proptest::collection::vec(-1024i64..=1024, 1..=8), proptest::collection::vec(3u32..=10, 2..=5)).prop_map(|(a_low, b_low, dims)| SeqCase { a_low, b_low, dims }).boxed()
+    }
+    fn check(&self, c: &SeqCase, st: &mut Stats) -> Result<(), Fail> {
+        if c.a_low.len() > 8 || c.b_low.len() > 8 || c.dims.iter().any(|&l| !(3..=10).contains(&l)) {
+            return Ok(());
+        }
+        let product = Product;
+        for (step, &l) in c.dims.iter().enumerate() {
+            let n = 1usize << l;
+            let mut a = vec![0i64; n];
+            let mut b = vec![0i64; n];
+            a[..c.a_low.len()].copy_from_slice(&c.a_low);
+            b[..c.b_low.len()].copy_from_slice(&c.b_low);
+            let case = ProductCase { a, b, shift_a: 0, shift_b: 0, scale_a: 0, scale_b: 0 };
+            let mut scratch = Stats::default();
+            product.check(&case, &mut scratch).map_err(|f| Fail::new(format!("{}-in-sequence", f.key), format!("call {} (n = {}, after lengths {:?}, low-degree operands): {}", step, n, &c.dims[..step], f.msg)))?;
+        }
+        st.count("same_operand_sequences");
+        st.nontrivial(&(&c.a_low, &c.b_low, &c.dims));
+        st.sample("sequence", || json!({"a_low": c.a_low, "b_low": c.b_low, "lengths": c.dims.iter().map(|l| 1usize << l).collect::<Vec<_>>()}));
+        Ok(())
+    }
+}
+
 const META: Meta = Meta {
-    rule: "complete enumeration of all basis vectors X^i for n = 2..1024 (every evaluation point fft(X)[k] within 2^-30 of e^(i pi m/n) for a distinct odd m computed by the harness with libm, fft(X^i)[k] within 2^-30 of its i-th power, round trip); proptest operands for n = 2..1024: a with |a_i| <= 2^14, b with |b_i| <= 2^10, integers or dyadic rationals k/2^s (s <= 20), optionally scaled down uniformly by 2^-1..2^-60 (the bound is relative to the operands' norms, so it must hold at every scale), uniform / constant / alternating / single spike at the magnitude limit / small; oracle = exact negacyclic product in i128 converted to f64; tolerance = the property's 2^-30 relative to the operands' norms. Non-trivial = n >= 64 or an operand at the magnitude limit (hash-distinct); basis vectors are distinct by construction.",
+    rule: "complete enumeration of all basis vectors X^i for n = 2..1024 (every evaluation point fft(X)[k] within 2^-30 of e^(i pi m/n) for a distinct odd m computed by the harness with libm, fft(X^i)[k] within 2^-30 of its i-th power, round trip); proptest operands for n = 2..1024: a with |a_i| <= 2^14, b with |b_i| <= 2^10, integers or dyadic rationals k/2^s (s <= 20), optionally scaled down uniformly by 2^-1..2^-60 (the bound is relative to the operands' norms, so it must hold at every scale), uniform / constant / alternating / single spike at the magnitude limit / small; the same low-degree operands zero-padded to 2-5 lengths in sequence on one thread; oracle = exact negacyclic product in i128 converted to f64; tolerance = the property's 2^-30 relative to the operands' norms. Non-trivial = n >= 64 or an operand at the magnitude limit (hash-distinct); basis vectors are distinct by construction.",
     assumptions: &[
         "oracle: exact integer product (i128) and libm sin/cos; tolerance 2^-30 as the property states (the implementation achieves about 1e-15, so honest rounding cannot trip it)",
     ],
@@ -204,7 +244,7 @@ const META: Meta = Meta {
 
 pub fn run(env: &Env, replay: Option<&Path>) -> i32 {
     let mut report = Report::new();
-    let subs: [&dyn DynSub; 2] = [&Basis, &Product];
+    let subs: [&dyn DynSub; 3] = [&Basis, &Product, &Sequence];
     if let Some(p) = replay {
         if let Err(e) = replay_file(env, &subs, p, &mut report) {
             eprintln!("harness: {}", e);
@@ -216,5 +256,6 @@ pub fn run(env: &Env, replay: Option<&Path>) -> i32 {
     let b = (1u32..=10).flat_map(|l| (0..(1usize << l)).map(move |i| BasisCase { n: 1 << l, i }));
     drive_enumerated(env, &Basis, b, &mut report);
     drive(env, &Product, env.tier.pick(60_000, 600_000), &mut report);
+    drive(env, &Sequence, env.tier.pick(10_000, 200_000), &mut report);
     finish(env, report, &META)
 }
